@@ -122,9 +122,15 @@ def _get_unmarshaller(
     # A string annotation names something in the module of the callable (not of whoever
     #   binds it), which need not exist yet while that module is still being defined:
     #   it is looked up there, when the first argument arrives.
-    # (For a class that is the module its constructor was written in: an inherited
-    #   `__init__` need not live in the module of the class.)
-    carrier = getattr(obj, "__init__", None) if inspect.isclass(obj) else None
+    # (For a class that is the module its constructor was written in, for a callable
+    #   instance the one of its `__call__`: an inherited method need not live in the
+    #   module of the class.)
+    if inspect.isclass(obj):
+        carrier = getattr(obj, "__init__", None)
+    elif inspect.isroutine(obj):
+        carrier = None
+    else:
+        carrier = getattr(type(obj), "__call__", None)
     owner = carrier if inspect.isfunction(carrier) else obj
     ref = refs.forwardref(
         annotation, is_argument=True, module=getattr(owner, "__module__", None)
